@@ -1,7 +1,10 @@
 """C03 -- whole COLUMNS of annotations through the column entry points: df_util.convert_to_form on a Series and on a
 DataFrame (columns given / all columns), TabularInput and SpreadsheetInput .convert_to_long / .convert_to_short.
 
-Input dimension: one column holds SEVERAL cells; families of cells are equal up to letter case (tag names recased,
+Input dimensions: the ROW LABELS of the Series/frames (default 0..n-1, offset, with gaps, a permutation, reversed,
+strings, and frames re-ordered by df_util.sort_dataframe_by_onsets / sort_values, which keep their labels): every row
+must get the conversion of ITS OWN cell whatever it is labelled and wherever it stands, labels and order unchanged.
+One column holds SEVERAL cells; families of cells are equal up to letter case (tag names recased,
 other spellings of the same tags) but differ -- or not -- in the letter case or text of a value or extension; exact
 repeats; unrelated cells; empty cells; degenerate sizes (one cell, all cells identical).  Required of every entry
 point, cell by cell: the converted cell is what the specification (T4) gives for each of its tags -- i.e. what
@@ -12,7 +15,25 @@ import os
 
 from harness import common as C
 
-VALUES = ["Go_Left", "abcDEF", "MixedCase_7", "Some Text", "x1Y", "éÉ", "Q", "3.5 mJx"]
+VALUES = ["Go_Left", "abcDEF", "MixedCase_7", "Some Text", "x1Y", "éÉ", "Q", "3.5 mJx", "# Hz", "# degree Celsius"]
+LABEL_KINDS = ["default", "offset", "gaps", "permutation", "reversed", "strings", "sorted-by-onset"]
+
+
+def make_labels(rng, n, kind):
+    """Row labels of a frame with n rows."""
+    if kind == "offset":
+        return list(range(7, 7 + n))
+    if kind == "gaps":
+        return [3 * i + 1 for i in range(n)]
+    if kind == "permutation":
+        l = list(range(n))
+        rng.shuffle(l)
+        return l
+    if kind == "reversed":
+        return list(range(n - 1, -1, -1))
+    if kind == "strings":
+        return [f"r{(i * 7) % (n + 3)}_{i}" for i in range(n)]
+    return list(range(n))            # default (and the frame that is then sorted by onset: labels get permuted)
 EXTS = ["MyExtension", "Qzx9", "camelCaseExt", "UP_low", "Wvv8/Zed7"]
 
 
@@ -93,7 +114,9 @@ def make_columns(rng, M, voc, ns, n):
         rng.shuffle(cells)
         if rng.random() < 0.1:
             cells = [cells[0]] * len(cells)          # all cells identical
-        cols.append(cells[:max(size, 1)])
+        cells = cells[:max(size, 1)]
+        kind = rng.choice(LABEL_KINDS)
+        cols.append((cells, make_labels(rng, len(cells), kind), kind))
     return cols
 
 
@@ -112,37 +135,57 @@ def columns_worker(arg):
     except Exception as e:  # noqa
         return [{"exn": "load:" + type(e).__name__ + ":" + str(e)[:100]}] * len(columns)
     out = []
-    for cells in columns:
+    from hed.models.df_util import sort_dataframe_by_onsets
+    for cells, labels, kind in columns:
         r = {}
         try:
             n = len(cells)
             other = [f"row{i}" for i in range(n)]
+            ids = list(range(n))
+
+            def frame(d):
+                """The frame under test: the given row labels; 'sorted-by-onset': rows re-ordered by their onset with
+                the package's own helper (the labels travel with the rows)."""
+                f = pd.DataFrame(dict(d, _id=ids), index=labels)
+                if kind == "sorted-by-onset":
+                    f["onset"] = [str((i * 5) % n + 0.5) for i in range(n)]
+                    f = sort_dataframe_by_onsets(f)
+                return f
+
+            def by_id(f, col):
+                """The column in the order of the cells as generated, whatever the row order of the frame."""
+                got = dict(zip((int(x) for x in f["_id"]), f[col]))      # (BaseInput turns every column into text)
+                return [got.get(i) for i in ids]
             for form, tag in (("long_tag", "long"), ("short_tag", "short")):
-                ser = pd.Series(list(cells))
+                ser = pd.Series(list(cells), index=labels)
                 convert_to_form(ser, sch, form)
                 r["series_" + tag] = list(ser)
                 r["alone_" + tag] = [HedString(c, sch).get_as_form(form) for c in cells]
-            df = pd.DataFrame({"onset": other, "HED": list(cells), "HED2": list(reversed(cells))})
+                r["labels_kept"] = r.get("labels_kept", True) and list(ser.index) == labels
+            df = frame({"onset": other, "HED": list(cells), "HED2": list(reversed(cells))})
+            lab0, id0 = list(df.index), list(df["_id"])
             convert_to_form(df, sch, "long_tag", ["HED"])
-            r["df_long"] = list(df["HED"])
-            r["df_untouched"] = list(df["onset"]) == other and list(df["HED2"]) == list(reversed(cells))
+            r["df_long"] = by_id(df, "HED")
+            r["df_untouched"] = by_id(df, "HED2") == list(reversed(cells)) and list(df["_id"]) == id0
+            r["rows_in_place"] = True
             convert_to_form(df, sch, "short_tag", ["HED"])
-            r["df_short_of_long"] = list(df["HED"])
+            r["df_short_of_long"] = by_id(df, "HED")
             convert_to_form(df, sch, "long_tag", ["HED"])
-            r["df_long_of_short"] = list(df["HED"])
-            df2 = pd.DataFrame({"A": list(cells), "B": list(reversed(cells))})
+            r["df_long_of_short"] = by_id(df, "HED")
+            r["labels_kept"] = r["labels_kept"] and list(df.index) == lab0 and len(df) == n
+            df2 = pd.DataFrame({"A": list(cells), "B": list(reversed(cells))}, index=labels)
             convert_to_form(df2, sch, "short_tag")              # columns=None: every column
             r["dfall_short_A"], r["dfall_short_B"] = list(df2["A"]), list(reversed(list(df2["B"])))
-            ti = TabularInput(pd.DataFrame({"onset": other, "HED": list(cells)}))
+            ti = TabularInput(frame({"onset": other, "HED": list(cells)}))
             ti.convert_to_long(sch)
-            r["tabular_long"] = list(ti.dataframe["HED"])
+            r["tabular_long"] = by_id(ti.dataframe, "HED")
             ti.convert_to_short(sch)
-            r["tabular_short_of_long"] = list(ti.dataframe["HED"])
-            sp = SpreadsheetInput(pd.DataFrame({"HED": list(cells), "note": other}), tag_columns=["HED"])
+            r["tabular_short_of_long"] = by_id(ti.dataframe, "HED")
+            sp = SpreadsheetInput(frame({"HED": list(cells), "note": other}), tag_columns=["HED"])
             sp.convert_to_short(sch)
-            r["sheet_short"] = list(sp.dataframe["HED"])
+            r["sheet_short"] = by_id(sp.dataframe, "HED")
             sp.convert_to_long(sch)
-            r["sheet_long_of_short"] = list(sp.dataframe["HED"])
+            r["sheet_long_of_short"] = by_id(sp.dataframe, "HED")
         except Exception as e:  # noqa
             r["exn"] = type(e).__name__ + ":" + str(e)[:150]
         out.append(r)
@@ -156,9 +199,10 @@ SHORT_KEYS = ["series_short", "alone_short", "df_short_of_long", "dfall_short_A"
 
 def check_columns(res, spec, ns, cols, outs):
     n = 0
-    for cells, r in zip(cols, outs):
+    for (cells, labels, kind), r in zip(cols, outs):
         texts = [c[0] for c in cells]
-        pay = {"schema": list(spec[:3]), "ns": ns, "column": texts, "kind": "column"}
+        pay = {"schema": list(spec[:3]), "ns": ns, "column": texts, "row_labels": labels, "frame": kind,
+               "kind": "column"}
         if "exn" in r:
             res.report("column-never-raises", pay, r["exn"])
             continue
@@ -175,6 +219,8 @@ def check_columns(res, spec, ns, cols, outs):
                 bad.append(f"{k}: cell {i} {texts[i]!r} -> {r[k][i]!r}, specification {want_s[i]!r}")
         if not r["df_untouched"]:
             bad.append("a column that was not to be converted changed")
+        if not r["labels_kept"]:
+            bad.append("row labels / number of rows changed")
         if bad:
             res.report("column-conversion", pay, "; ".join(bad[:3]))
     return n
@@ -184,12 +230,15 @@ def replay(case):
     import shutil
     scratch = C.scratch_dir()
     try:
-        out = columns_worker((case["schema"], case["ns"], scratch, [case["column"]]))[0]
+        out = columns_worker((case["schema"], case["ns"], scratch,
+                              [(case["column"], case.get("row_labels", list(range(len(case["column"])))),
+                                case.get("frame", "default"))]))[0]
         for k, v in out.items():
             print(" ", k, v)
         if "exn" in out:
             return 1
         bad = any(out[k] != out["alone_long"] for k in LONG_KEYS) or any(out[k] != out["alone_short"] for k in SHORT_KEYS)
+        bad = bad or not out["labels_kept"] or not out["df_untouched"]
         if bad:
             print("FAILS: a cell converted inside the column differs from the same cell converted alone")
         return 1 if bad else 0
